@@ -575,3 +575,173 @@ Example resume_instantiated_nonvacuous :
                xi_commit sf = Some [Some ex_new].
 Proof. exact resume_instantiated_example_lemma. Qed.
 Print Assumptions resume_instantiated_nonvacuous.
+
+(** ** Added (Compose/ModelsAgree.v): the C03 model and the C01 / C12 models of the same Go code agree
+
+    pwr/patcher's processRsync / processBsdiff (and bsdiff Apply inside it) are modelled by
+    Patch/Patcher.v (C01, concrete: frames re-interpreted, fresh bowl tree), by Patch/Resume.v
+    (C03, this property: typed messages, parametric payload functions and entry writer) and,
+    for Apply, by Bsdiff/Patch.v (C12).  Each has its own correspondence; the theorems below tie
+    the C03 machine - at the fresh bowl's entry writer (Patch/PlainWriter.v), with
+    [range_data] / [bs_data] / sizes read off the C01 parameters ([range_data_of], [bs_data_of],
+    [tsize_of], [ssize_of], [old_of] of Compose/ModelsAgreeResume.v), no saving - to the other
+    two: wherever the C01 model returns Ok, the C03 machine runs over the same frames (seen as
+    the typed message each is READ as: [abs_so], [abs_ct], [abs_bh]) without failing or stopping
+    and leaves the same bytes in the file.  Stated here (C03's file) for the pairs C01/C03 and
+    C12/C03; the pairs with C10 are in Properties/C10.v.  The converse direction fails by
+    design - C03 "leaves index bounds to C10" - see [c03_has_no_bounds_checks]. *)
+From Wharf Require Bowl.Fresh Patch.Reinterp Patch.Stream Patch.Patcher Patch.DiffApplyProofs Bsdiff.Scan Bsdiff.Patch
+     Compose.OptimizeApply Compose.ModelsAgreeResume Compose.ModelsAgreeResumeProofs Compose.ModelsAgreeBsdiffProofs.
+
+Section ModelsAgreeC03.
+  Import Fresh Reinterp Stream Patcher ModelsAgreeResume.
+  Local Open Scope Z_scope.
+
+  (** the relay loop of processRsync.  [wsim w S wN]: the C01 writer [w] and the C03 state see the
+      same bytes in the output file, at the same offset [wN], inside the file.  Hypotheses:
+      [0 < bs]; the pool serves files of the declared sizes ([aligned]) *)
+  Theorem relay_models_agree_c01_c03 :
+    forall (bs : Z) (oldC newC : container) (olds : list (list byte)) (nfiles : N) (is_overlay : N -> bool)
+           (emit stop : nat -> bool),
+      0 < bs -> aligned oldC olds ->
+    forall (ms : list pmsg) (w : wst) (rest : list pmsg) (s' : pst) (S : cstate) (wN : N),
+      relay bs oldC olds ms w = Ok (rest, s') ->
+      s_ph _ _ _ S = PRsLoop _ wN -> wsim w S wN ->
+      exists (pre : list pmsg) (S' : cstate),
+        ms = pre ++ rest /\
+        (forall tail, c03_run bs oldC newC olds nfiles is_overlay emit stop S (map (fun m => abs_so (as_so m)) pre ++ tail) =
+                      c03_run bs oldC newC olds nfiles is_overlay emit stop S' tail) /\
+        s_ph _ _ _ S' = PFile _ /\ s_file _ _ _ S' = (s_file _ _ _ S + 1)%N /\
+        tlookup (p_tree s') (w_path w) = Some (File (s_disk _ _ _ S' (s_file _ _ _ S))) /\
+        c03_frame S S' /\
+        (forall q, q <> w_path w -> tlookup (p_tree s') q = tlookup (p_tree (w_st w)) q).
+  Proof. exact ModelsAgreeResumeProofs.relay_models_agree_c03. Qed.
+
+  (** processRsync from its first op, both branches (full-file op => Transpose + skip; otherwise
+      open, first op, relay).  [so_span_repr]: the span of the first op, if it is a block range,
+      is not negative (C03 messages carry [N]); it cannot be dropped ([diff_first_span]) *)
+  Theorem process_rsync_models_agree_c01_c03 :
+    forall (bs : Z) (oldC newC : container) (olds : list (list byte)) (nfiles : N) (is_overlay : N -> bool)
+           (emit stop : nat -> bool),
+      0 < bs -> aligned oldC olds ->
+    forall (idx : Z) (p : path) (size : Z) (m : pmsg) (ms rest : list pmsg) (s s' : pst) (S : cstate),
+      znth (c_files newC) idx = Some (p, size) -> 0 <= size ->
+      so_span_repr (as_so m) ->
+      process_rsync bs oldC newC olds idx (m :: ms) s = Ok (rest, s') ->
+      s_ph _ _ _ S = PRsFirst _ -> s_file _ _ _ S = Z.to_N idx ->
+      tlookup (p_tree s) p = Some (File (s_disk _ _ _ S (s_file _ _ _ S))) ->
+      exists (pre : list pmsg) (S' : cstate),
+        m :: ms = pre ++ rest /\
+        (forall tail, c03_run bs oldC newC olds nfiles is_overlay emit stop S (map (fun m => abs_so (as_so m)) pre ++ tail) =
+                      c03_run bs oldC newC olds nfiles is_overlay emit stop S' tail) /\
+        s_ph _ _ _ S' = PFile _ /\ s_file _ _ _ S' = (s_file _ _ _ S + 1)%N /\
+        tlookup (p_tree s') p = Some (File (s_disk _ _ _ S' (s_file _ _ _ S))) /\
+        c03_frame S S'.
+  Proof. exact ModelsAgreeResumeProofs.process_rsync_models_agree_c03. Qed.
+
+  (** the control loop of processBsdiff (bsdiff Apply per control): same bytes, same old-file
+      cursor at every step; no hypothesis *)
+  Theorem ctrl_loop_models_agree_c01_c03 :
+    forall (bs : Z) (oldC newC : container) (olds : list (list byte)) (nfiles : N) (is_overlay : N -> bool)
+           (emit stop : nat -> bool)
+           (ms : list pmsg) (off : Z) (t : N) (w : wst) (rest : list pmsg) (w' : wst) (S : cstate) (wN : N),
+      ctrl_loop (old_of olds t) off ms w = Ok (rest, w') ->
+      s_ph _ _ _ S = PBsLoop _ wN off t -> wsim w S wN ->
+      exists (pre : list pmsg) (S' : cstate) (wN' : N),
+        ms = pre ++ rest /\
+        (forall tail, c03_run bs oldC newC olds nfiles is_overlay emit stop S (map (fun m => abs_ct (as_ct m)) pre ++ tail) =
+                      c03_run bs oldC newC olds nfiles is_overlay emit stop S' tail) /\
+        s_ph _ _ _ S' = PBsEnd _ wN' /\ s_file _ _ _ S' = s_file _ _ _ S /\
+        wsim w' S' wN' /\ w_path w' = w_path w /\
+        c03_frame S S' /\
+        (forall q, q <> w_path w -> tlookup (p_tree (w_st w')) q = tlookup (p_tree (w_st w)) q).
+  Proof. exact ModelsAgreeResumeProofs.ctrl_loop_models_agree_c03. Qed.
+
+  (** processBsdiff from the BsdiffHeader to the final size check; no hypothesis *)
+  Theorem process_bsdiff_models_agree_c01_c03 :
+    forall (bs : Z) (oldC newC : container) (olds : list (list byte)) (nfiles : N) (is_overlay : N -> bool)
+           (emit stop : nat -> bool)
+           (idx : Z) (p : path) (size : Z) (m : pmsg) (ms rest : list pmsg) (s s' : pst) (S : cstate),
+      znth (c_files newC) idx = Some (p, size) ->
+      process_bsdiff oldC newC olds idx (m :: ms) s = Ok (rest, s') ->
+      s_ph _ _ _ S = PBsHeader _ -> s_file _ _ _ S = Z.to_N idx ->
+      tlookup (p_tree s) p = Some (File (s_disk _ _ _ S (s_file _ _ _ S))) ->
+      exists (ctrls : list pmsg) (m2 : pmsg) (S' : cstate),
+        ms = ctrls ++ m2 :: rest /\
+        (forall tail, c03_run bs oldC newC olds nfiles is_overlay emit stop S (abs_bsdiff_series m ctrls m2 ++ tail) =
+                      c03_run bs oldC newC olds nfiles is_overlay emit stop S' tail) /\
+        s_ph _ _ _ S' = PFile _ /\ s_file _ _ _ S' = (s_file _ _ _ S + 1)%N /\
+        tlookup (p_tree s') p = Some (File (s_disk _ _ _ S' (s_file _ _ _ S))) /\
+        c03_frame S S'.
+  Proof. exact ModelsAgreeResumeProofs.process_bsdiff_models_agree_c03. Qed.
+
+  (** C12's Apply and C03's [bs_data]: one control ... *)
+  Theorem bsdiff_apply_models_agree_c12_c03 :
+    forall (olds : list (list byte)) (t : N) (off : Z) (c : Scan.ctrl) (o : list byte) (off' : Z),
+      Bsdiff.Patch.apply_ctrl (old_of olds t) off c = Some (o, off') ->
+      o = bs_data_of olds t off (Scan.c_add c) (Scan.c_copy c) /\
+      off' = off + Z.of_N (N.of_nat (length (Scan.c_add c))) + Scan.c_seek c.
+  Proof. exact ModelsAgreeBsdiffProofs.apply_ctrl_is_bs_data. Qed.
+
+  (** ... and a whole well-formed series (int64 seeks, only the last control marked eof, C12's
+      [apply_series] succeeds with output [out]): the C03 machine consumes exactly the
+      controls, reaches the sentinel phase, and the output file - pre-sized to [L] bytes, with
+      [written] in it so far ([wgood]) - now holds [written ++ out] *)
+  Theorem bsdiff_series_models_agree_c12_c03 :
+    forall (bs : Z) (oldC newC : container) (olds : list (list byte)) (nfiles : N) (is_overlay : N -> bool)
+           (emit stop : nat -> bool) (t : N) (b : OptimizeApply.bseries) (out : list byte) (offf : Z)
+           (p : path) (L : nat) (w : wst) (written : list byte) (S : cstate) (wN : N),
+      forallb OptimizeApply.seek_okb b = true -> OptimizeApply.eof_lastb b = true ->
+      Bsdiff.Patch.apply_series (old_of olds t) 0 b = Some (out, offf) ->
+      DiffApplyProofs.wgood p L w written -> (length written + length out <= L)%nat ->
+      s_ph _ _ _ S = PBsLoop _ wN 0 t -> wsim w S wN ->
+      exists (S' : cstate) (wN' : N),
+        (forall tail, c03_run bs oldC newC olds nfiles is_overlay emit stop S (map ModelsAgreeBsdiffProofs.c03_ctrl b ++ tail) =
+                      c03_run bs oldC newC olds nfiles is_overlay emit stop S' tail) /\
+        s_ph _ _ _ S' = PBsEnd _ wN' /\ s_file _ _ _ S' = s_file _ _ _ S /\
+        N.to_nat wN' = (length written + length out)%nat /\
+        s_disk _ _ _ S' (s_file _ _ _ S) = written ++ out ++ zeros (L - (length written + length out)) /\
+        c03_frame S S'.
+  Proof. exact ModelsAgreeBsdiffProofs.bsdiff_series_c12_c03_lemma. Qed.
+
+  (** where the two models differ: inputs on which the C01 model (and Go) returns an error and
+      the C03 machine runs on to [Finished] - a block range naming old file 7 of a one-file
+      container (no validateOp in C03); an add part of five bytes against an old file of three
+      (no bounds check in C03's bsdiff step); a BsdiffHeader naming old file 9.  Tiny executed
+      instances (block size 4) *)
+  Theorem c03_has_no_bounds_checks :
+    (relay 4 ModelsAgreeResumeProofs.ex_oldC ModelsAgreeResumeProofs.ex_olds
+           [ModelsAgreeResumeProofs.ex_bad_range; hey_msg] ModelsAgreeResumeProofs.ex_w = Err /\
+     ModelsAgreeResumeProofs.finished_with
+       (c03_run 4 ModelsAgreeResumeProofs.ex_oldC ModelsAgreeResumeProofs.ex_newC0 ModelsAgreeResumeProofs.ex_olds 1
+                ModelsAgreeResumeProofs.nof ModelsAgreeResumeProofs.nob ModelsAgreeResumeProofs.nob
+                (ModelsAgreeResumeProofs.ex_state (PRsLoop _ 0%N))
+                (map (fun m => abs_so (as_so m)) [ModelsAgreeResumeProofs.ex_bad_range; hey_msg])) 0 [] = true) /\
+    (process_bsdiff ModelsAgreeResumeProofs.ex_oldC ModelsAgreeResumeProofs.ex_newC3 ModelsAgreeResumeProofs.ex_olds 0
+                    [MBH (mkBH 0); ModelsAgreeResumeProofs.ex_long_add; ModelsAgreeResumeProofs.ex_eof; hey_msg]
+                    ModelsAgreeResumeProofs.ex_pst = Err /\
+     ModelsAgreeResumeProofs.finished_with
+       (c03_run 4 ModelsAgreeResumeProofs.ex_oldC ModelsAgreeResumeProofs.ex_newC3 ModelsAgreeResumeProofs.ex_olds 1
+                ModelsAgreeResumeProofs.nof ModelsAgreeResumeProofs.nob ModelsAgreeResumeProofs.nob
+                (ModelsAgreeResumeProofs.ex_state (PBsHeader _))
+                (abs_bsdiff_series (MBH (mkBH 0)) [ModelsAgreeResumeProofs.ex_long_add; ModelsAgreeResumeProofs.ex_eof] hey_msg))
+       0 [2; 3; 4]%N = true) /\
+    (process_bsdiff ModelsAgreeResumeProofs.ex_oldC ModelsAgreeResumeProofs.ex_newC0 ModelsAgreeResumeProofs.ex_olds 0
+                    [MBH (mkBH 9); ModelsAgreeResumeProofs.ex_eof; hey_msg] ModelsAgreeResumeProofs.ex_pst = Err /\
+     ModelsAgreeResumeProofs.finished_with
+       (c03_run 4 ModelsAgreeResumeProofs.ex_oldC ModelsAgreeResumeProofs.ex_newC0 ModelsAgreeResumeProofs.ex_olds 1
+                ModelsAgreeResumeProofs.nof ModelsAgreeResumeProofs.nob ModelsAgreeResumeProofs.nob
+                (ModelsAgreeResumeProofs.ex_state (PBsHeader _))
+                (abs_bsdiff_series (MBH (mkBH 9)) [ModelsAgreeResumeProofs.ex_eof] hey_msg)) 0 [] = true).
+  Proof.
+    exact (conj ModelsAgreeResumeProofs.diff_validate_op
+                (conj ModelsAgreeResumeProofs.diff_bsdiff_bounds ModelsAgreeResumeProofs.diff_bsdiff_target)).
+  Qed.
+End ModelsAgreeC03.
+Print Assumptions relay_models_agree_c01_c03.
+Print Assumptions process_rsync_models_agree_c01_c03.
+Print Assumptions ctrl_loop_models_agree_c01_c03.
+Print Assumptions process_bsdiff_models_agree_c01_c03.
+Print Assumptions bsdiff_apply_models_agree_c12_c03.
+Print Assumptions bsdiff_series_models_agree_c12_c03.
+Print Assumptions c03_has_no_bounds_checks.
